@@ -436,7 +436,23 @@ fn op_shrink_slice(ctx: &mut Ctx, sc: &mut dyn ScopeOps, b: Blk) {
     }
 }
 
+/// C17: a typed fast-path allocation that had to switch chunks must leave the new chunk exactly as
+/// the generic layout path would: the block near the start, i.e. fewer than
+/// `size + align + min_align` bytes of the new current chunk consumed
+fn check_typed_slow_path(ctx: &mut Ctx, sc: &dyn ScopeOps, before: &Dump, text: &str, l: Layout) {
+    let d = sc.x_dump();
+    if let Some(j) = d.cur {
+        if before.cur != d.cur {
+            let used = d.fwd[j].allocated;
+            if used >= l.size() + l.align() + sc.x_min_align() {
+                ctx.oracle("C17", format!("TYPED-SLOW-PATH `{text}`: after switching chunks the typed request of {} bytes (align {}) consumed {used} bytes of the new chunk; the generic layout path consumes fewer than size + align + min_align", l.size(), l.align()));
+            }
+        }
+    }
+}
+
 fn op_typed(ctx: &mut Ctx, sc: &mut dyn ScopeOps) {
+    let before_typed = sc.x_dump();
     // entry point: try_ method, trait object, or (only when no base-allocator failure can occur) the panicking twin
     let mode: u8 = match ctx.rng.below(10) {
         0 | 1 => 1,
@@ -458,6 +474,7 @@ fn op_typed(ctx: &mut Ctx, sc: &mut dyn ScopeOps) {
                     check_new_block(ctx, &text, ptr, l.size(), l);
                     let id = ctx.add_block(ptr, l.size(), l.align(), Vec::new(), None);
                     log_op(ctx, sc, &text, &format!("ok {id} {ptr} {}", l.size()));
+                    check_typed_slow_path(ctx, &*sc, &before_typed, &text, l);
                 }
                 Err(()) => {
                     log_op(ctx, sc, &text, "err");
@@ -475,6 +492,7 @@ fn op_typed(ctx: &mut Ctx, sc: &mut dyn ScopeOps) {
                     check_new_block(ctx, &text, ptr, l.size(), l);
                     let id = ctx.add_block(ptr, l.size(), l.align(), Vec::new(), None);
                     log_op(ctx, sc, &text, &format!("ok {id} {ptr} {}", l.size()));
+                    check_typed_slow_path(ctx, &*sc, &before_typed, &text, l);
                 }
                 Err(()) => {
                     log_op(ctx, sc, &text, "err");
@@ -495,6 +513,7 @@ fn op_typed(ctx: &mut Ctx, sc: &mut dyn ScopeOps) {
                     check_new_block(ctx, &text, ptr, l.size(), l);
                     let id = ctx.add_block(ptr, l.size(), l.align(), Vec::new(), Some(e));
                     log_op(ctx, sc, &text, &format!("ok {id} {ptr} {}", l.size()));
+                    check_typed_slow_path(ctx, &*sc, &before_typed, &text, l);
                 }
                 Err(()) => {
                     log_op(ctx, sc, &text, "err");
